@@ -131,3 +131,590 @@ Proof.
 Qed.
 Lemma qst_none_ge t r : List.length (t_reqs t) <= r -> qst t r = None.
 Proof. intros H. unfold qst. now rewrite (proj2 (nth_error_None _ _) H). Qed.
+
+Lemma qst_upd_gen t t' r0 f r : t_reqs t' = upd_nth r0 f (t_reqs t) ->
+  qst t' r = if Nat.eqb r0 r then option_map (fun q => q_st (f q)) (nth_error (t_reqs t) r) else qst t r.
+Proof.
+  intros E. unfold qst. rewrite E. destruct (Nat.eqb_spec r0 r) as [<-|Hne].
+  - rewrite nth_error_upd_eq. now destruct (nth_error (t_reqs t) r0).
+  - now rewrite nth_error_upd_ne.
+Qed.
+Lemma hands_single_ne r r0 c : r <> r0 -> hands r [EHand r0 c] = 0.
+Proof. intros H. unfold hands. cbn. destruct (Nat.eqb_spec r r0); [contradiction|reflexivity]. Qed.
+Lemma hands_single_eq r c : hands r [EHand r c] = 1.
+Proof. unfold hands. cbn. now rewrite Nat.eqb_refl. Qed.
+Lemma hands_cons_hand r r0 c l : hands r (EHand r0 c :: l) = (if Nat.eqb r r0 then 1 else 0) + hands r l.
+Proof. unfold hands. cbn. now destruct (Nat.eqb r r0). Qed.
+Lemma hands_cons_other r e l : match e with EHand _ _ => False | _ => True end -> hands r (e :: l) = hands r l.
+Proof. unfold hands. destruct e; cbn; auto; contradiction. Qed.
+
+Lemma keeps_at t t' r v : keeps t t' -> qst t r = v -> v <> Some TWait -> qst t' r = v.
+Proof. intros H E Hv. destruct (H r) as [E'|(E' & _)]; congruence. Qed.
+
+Lemma tstep_req cn o evs t t' : tstep cn o evs t = Some t' -> forall r, req_step o evs t t' r.
+Proof.
+  intros H r. destruct o as [|r0|r0 ok|r0 ok|c0|r0]; cbn [tstep] in H.
+  - (* Issue *)
+    destruct (evs_eqb evs []) eqn:E; [|discriminate]. apply evs_eqb_eq in E as ->.
+    assert (Hcase : forall q, open_st (Some (q_st q)) -> (forall r, qst t' r = qst (t_set_reqs (t_reqs t ++ [q]) t) r) -> req_step Issue [] t t' r).
+    { intros q Hq Ht'. destruct (Nat.ltb r (List.length (t_reqs t))) eqn:E1.
+      - apply RS_keep; auto. left. rewrite Ht', qst_snoc, E1. reflexivity. left. discriminate.
+      - apply Nat.ltb_ge in E1 as E1'. destruct (Nat.eqb r (List.length (t_reqs t))) eqn:E2.
+        + apply RS_new; auto. now apply qst_none_ge. rewrite Ht', qst_snoc, E1, E2. exact Hq.
+        + apply RS_keep; auto. left. rewrite Ht', qst_snoc, E1, E2. symmetry. now apply qst_none_ge. left. discriminate. }
+    destruct (rev (t_idle t)) as [|c rest]; injection H as <-.
+    + apply (Hcase (mkTR TWait (mkTD false false None None))); [exact I|reflexivity].
+    + apply (Hcase (mkTR (TIdle c) dead_dial)); [exact I|reflexivity].
+  - (* Poll *)
+    destruct (nth_error (t_reqs t) r0) as [q|] eqn:Hq.
+    2:{ destruct (evs_eqb evs []) eqn:E; [|discriminate]. apply evs_eqb_eq in E as ->. injection H as <-.
+        apply keep_of_keeps; [apply keeps_refl|reflexivity|]. destruct (Nat.eq_dec r0 r) as [->|Hne]; [|left; congruence].
+        right. left. unfold qst. rewrite Hq. cbn. auto. }
+    assert (Hqst0 : qst t r0 = Some (q_st q)) by (unfold qst; now rewrite Hq).
+    destruct (q_st q) as [c| |c|c|] eqn:Est.
+    + destruct (evs_eqb evs [EHand r0 c] && negb (held t c))%bool eqn:E; [|discriminate]. apply andb_true_iff in E as (E & _).
+      apply evs_eqb_eq in E as ->. injection H as <-. destruct (Nat.eq_dec r0 r) as [->|Hne].
+      * apply (RS_served _ _ _ _ _ c); auto. apply hands_single_eq. now left. rewrite qst_t_upd_eq, Hq. reflexivity.
+      * apply RS_keep. left. now apply qst_t_upd_ne. apply hands_single_ne. congruence. left. congruence.
+    + (* TWait: own connector polled *)
+      destruct (strip_start r0 (negb (k_st (q_dial q))) evs) as [evs1|] eqn:Es; [|discriminate].
+      set (t2 := if k_st (q_dial q) then t else _) in H.
+      assert (Ht2 : forall r, qst t2 r = qst t r).
+      { intros r1. unfold t2. destruct (k_st (q_dial q)); auto. exact (qst_t_upd_dial r0 r1 _ t). }
+      assert (Hh : hands r evs = hands r evs1).
+      { unfold strip_start in Es. destruct (negb (k_st (q_dial q))); [|now injection Es as <-].
+        destruct evs as [|[r1| | | | |] rest]; try discriminate. destruct (Nat.eqb r0 r1); [|discriminate]. injection Es as <-. reflexivity. }
+      assert (Hin : forall e, In e evs1 -> In e evs).
+      { unfold strip_start in Es. destruct (negb (k_st (q_dial q))); [|now injection Es as <-].
+        destruct evs as [|[r1| | | | |] rest]; try discriminate. destruct (Nat.eqb r0 r1); [|discriminate]. injection Es as <-. intros e He. now right. }
+      destruct evs1 as [|e1 evs2]; [discriminate|]. destruct e1 as [r1|c r1|r1 c|r1 hs|r1|r1]; try discriminate.
+      * (* [ENew c r'; EHand r'' c'] *)
+        destruct evs2 as [|e2 evs3]; [discriminate|]. destruct e2 as [r2|c2 r2|r2 c0|r2 hs|r2|r2]; try discriminate.
+        destruct evs3; [|discriminate].
+        destruct (Nat.eqb r0 r1 && Nat.eqb r0 r2 && Nat.eqb c c0 && Nat.eqb c (t_nconn t2) && negb (held t2 c))%bool eqn:E; [|discriminate].
+        apply andb_true_iff in E as (E & E5). apply andb_true_iff in E as (E & E4). apply andb_true_iff in E as (E & E3).
+        apply andb_true_iff in E as (E1 & E2). apply Nat.eqb_eq in E1, E2, E3, E4. subst r1 r2 c0 c.
+        injection H as <-. destruct (Nat.eq_dec r0 r) as [->|Hne].
+        -- apply (RS_served _ _ _ _ _ (t_nconn t2)); auto.
+           ++ rewrite Hh. rewrite hands_cons_other by exact I. apply hands_single_eq.
+           ++ apply Hin. right. now left.
+           ++ erewrite qst_upd_gen by reflexivity. rewrite Nat.eqb_refl. fold (qst t2 r). 
+              assert (E2 := Ht2 r). unfold qst in E2 at 1. destruct (nth_error (t_reqs t2) r); [reflexivity|]. rewrite Hqst0 in E2. discriminate.
+        -- apply RS_keep.
+           ++ left. erewrite qst_upd_gen by reflexivity. destruct (Nat.eqb_spec r0 r); [contradiction|]. apply Ht2.
+           ++ rewrite Hh. rewrite hands_cons_other by exact I. apply hands_single_ne. congruence.
+           ++ left. congruence.
+      * (* [EFail] *)
+        destruct evs2; [|discriminate].
+        destruct (Nat.eqb_spec r0 r1) as [<-|]; [|discriminate]. injection H as <-. destruct (Nat.eq_dec r0 r) as [->|Hne].
+        -- apply RS_over.
+           ++ exact Hh.
+           ++ rewrite qst_t_upd_eq. assert (E2 := Ht2 r). unfold qst in E2 at 1. destruct (nth_error (t_reqs t2) r); [reflexivity|]. rewrite Hqst0 in E2. discriminate.
+           ++ right. left. auto.
+        -- apply RS_keep.
+           ++ left. rewrite qst_t_upd_ne by auto. apply Ht2.
+           ++ exact Hh.
+           ++ left. congruence.
+      * (* [EPend] *)
+        destruct evs2; [|discriminate].
+        destruct (Nat.eqb_spec r0 r1) as [<-|]; [|discriminate]. injection H as <-.
+        apply RS_keep.
+        -- left. apply Ht2.
+        -- exact Hh.
+        -- destruct (Nat.eq_dec r0 r) as [->|Hne]; [right; right; exact Hqst0|left; congruence].
+    + (* TProm: the offered connection *)
+      destruct evs as [|e rest]; [discriminate|].
+      destruct (ev_eqb e (EHand r0 c) && negb (held t c))%bool eqn:E; [|discriminate]. apply andb_true_iff in E as (E & _).
+      apply ev_eqb_eq in E as ->. destruct (abandon_check_keeps _ _ _ _ _ H) as (Hk & Hh0).
+      destruct (Nat.eq_dec r0 r) as [->|Hne].
+      * apply (RS_served _ _ _ _ _ c); auto.
+        -- rewrite hands_cons_hand, Nat.eqb_refl, Hh0. reflexivity.
+        -- now left.
+        -- apply (keeps_at _ _ _ _ Hk); [|discriminate]. rewrite qst_t_upd_eq, Hq. reflexivity.
+      * apply RS_keep.
+        -- specialize (Hk r). rewrite qst_t_upd_ne in Hk by auto. exact Hk.
+        -- rewrite hands_cons_hand, Hh0. destruct (Nat.eqb_spec r r0); [congruence|reflexivity].
+        -- left. congruence.
+    + destruct (evs_eqb evs []) eqn:E; [|discriminate]. apply evs_eqb_eq in E as ->. injection H as <-.
+      apply keep_of_keeps; [apply keeps_refl|reflexivity|]. destruct (Nat.eq_dec r0 r) as [->|Hne]; [|left; congruence].
+      right. left. rewrite Hqst0. cbn. auto.
+    + destruct (evs_eqb evs []) eqn:E; [|discriminate]. apply evs_eqb_eq in E as ->. injection H as <-.
+      apply keep_of_keeps; [apply keeps_refl|reflexivity|]. destruct (Nat.eq_dec r0 r) as [->|Hne]; [|left; congruence].
+      right. left. rewrite Hqst0. cbn. auto.
+  - (* TDone *)
+    destruct (nth_error (t_reqs t) r0) as [q|] eqn:Hq.
+    2:{ destruct (evs_eqb evs []) eqn:E; [|discriminate]. apply evs_eqb_eq in E as ->. injection H as <-.
+        apply keep_of_keeps; [apply keeps_refl|reflexivity|left; discriminate]. }
+    destruct (k_st (q_dial q) && negb (k_dead (q_dial q)) && match k_t (q_dial q) with None => true | _ => false end)%bool.
+    + destruct (abandoned q).
+      * destruct (bg_check_keeps _ _ _ _ H) as (Hk & Hh0). apply keep_of_keeps; auto; [|left; discriminate].
+        eapply keeps_trans; [apply keeps_upd_dial|exact Hk].
+      * destruct (evs_eqb evs []) eqn:E; [|discriminate]. apply evs_eqb_eq in E as ->. injection H as <-.
+        apply keep_of_keeps; [apply keeps_upd_dial|reflexivity|left; discriminate].
+    + destruct (evs_eqb evs []) eqn:E; [|discriminate]. apply evs_eqb_eq in E as ->. injection H as <-.
+      apply keep_of_keeps; [apply keeps_refl|reflexivity|left; discriminate].
+  - (* HDone *)
+    destruct (nth_error (t_reqs t) r0) as [q|] eqn:Hq.
+    2:{ destruct (evs_eqb evs []) eqn:E; [|discriminate]. apply evs_eqb_eq in E as ->. injection H as <-.
+        apply keep_of_keeps; [apply keeps_refl|reflexivity|left; discriminate]. }
+    destruct (k_st (q_dial q) && negb (k_dead (q_dial q)) && match k_t (q_dial q), k_h (q_dial q) with Some true, None => true | _, _ => false end)%bool.
+    + destruct (abandoned q).
+      * destruct (bg_check_keeps _ _ _ _ H) as (Hk & Hh0). apply keep_of_keeps; auto; [|left; discriminate].
+        eapply keeps_trans; [apply keeps_upd_dial|exact Hk].
+      * destruct (evs_eqb evs []) eqn:E; [|discriminate]. apply evs_eqb_eq in E as ->. injection H as <-.
+        apply keep_of_keeps; [apply keeps_upd_dial|reflexivity|left; discriminate].
+    + destruct (evs_eqb evs []) eqn:E; [|discriminate]. apply evs_eqb_eq in E as ->. injection H as <-.
+      apply keep_of_keeps; [apply keeps_refl|reflexivity|left; discriminate].
+  - (* Release *)
+    destruct (evs_eqb evs []) eqn:E; [|discriminate]. apply evs_eqb_eq in E as ->.
+    destruct (t_holder_from 0 (t_reqs t) c0) as [r0|] eqn:Hh; injection H as <-.
+    2:{ apply keep_of_keeps; [apply keeps_refl|reflexivity|left; discriminate]. }
+    destruct (t_holder_from_spec _ _ _ _ Hh) as (_ & Hst). rewrite Nat.sub_0_r in Hst. fold (qst t r0) in Hst.
+    destruct (Nat.eq_dec r0 r) as [->|Hne].
+    + apply RS_over; auto.
+      * apply (keeps_at _ _ _ _ (keeps_offer c0 _)); [|discriminate]. rewrite qst_t_upd_eq. unfold qst in Hst.
+        destruct (nth_error (t_reqs t) r); [reflexivity|discriminate].
+      * right. right. eauto.
+    + apply RS_keep; [|reflexivity|left; discriminate].
+      pose proof (keeps_offer c0 (t_upd r0 (q_set_st TOver) t) r) as Hk. rewrite qst_t_upd_ne in Hk by auto. exact Hk.
+  - (* Cancel *)
+    destruct (nth_error (t_reqs t) r0) as [q|] eqn:Hq.
+    2:{ destruct (evs_eqb evs []) eqn:E; [|discriminate]. apply evs_eqb_eq in E as ->. injection H as <-.
+        apply keep_of_keeps; [apply keeps_refl|reflexivity|left; discriminate]. }
+    assert (Hqst0 : qst t r0 = Some (q_st q)) by (unfold qst; now rewrite Hq).
+    assert (Hover : qst (t_upd r0 (q_set_st TOver) t) r0 = Some TOver) by (rewrite qst_t_upd_eq, Hq; reflexivity).
+    assert (Hfin : forall t1, keeps (t_upd r0 (q_set_st TOver) t) t1 -> hands r evs = 0 -> open_st (qst t r0) -> req_step (Cancel r0) evs t t1 r).
+    { intros t1 Hk Hh0 Hop. destruct (Nat.eq_dec r0 r) as [->|Hne].
+      - apply RS_over; auto. apply (keeps_at _ _ _ _ Hk); [exact Hover|discriminate].
+      - apply RS_keep; auto; [|left; discriminate]. specialize (Hk r). rewrite qst_t_upd_ne in Hk by auto. exact Hk. }
+    destruct (q_st q) as [c| |c|c|] eqn:Est.
+    + destruct (evs_eqb evs []) eqn:E; [|discriminate]. apply evs_eqb_eq in E as ->. injection H as <-.
+      apply Hfin; [apply keeps_offer|reflexivity|rewrite Hqst0; exact I].
+    + destruct (abandon_check_keeps _ _ _ _ _ H) as (Hk & Hh0). apply Hfin; auto. rewrite Hqst0. exact I.
+    + destruct (abandon_check_keeps _ _ _ _ _ H) as (Hk & Hh0). apply Hfin; auto.
+      * eapply keeps_trans; [apply keeps_offer|exact Hk].
+      * rewrite Hqst0. exact I.
+    + destruct (evs_eqb evs []) eqn:E; [|discriminate]. apply evs_eqb_eq in E as ->. injection H as <-.
+      apply keep_of_keeps; [apply keeps_refl|reflexivity|left; discriminate].
+    + destruct (evs_eqb evs []) eqn:E; [|discriminate]. apply evs_eqb_eq in E as ->. injection H as <-.
+      apply keep_of_keeps; [apply keeps_refl|reflexivity|left; discriminate].
+Qed.
+
+(* ================================================================ the model, through the simulation *)
+Definition mst (s : state) (r : nat) : option rstate := option_map r_st (nth_error (reqs s) r).
+Lemma qst_abs s r : qst (abs s) r = option_map abs_st (mst s r).
+Proof. unfold qst, mst. rewrite abs_nth. now destruct (nth_error (reqs s) r). Qed.
+
+Lemma abs_st_prom st c : abs_st st = TProm c -> st = RWait (Some c).
+Proof. destruct st as [|[|]| | | |]; cbn; congruence. Qed.
+Lemma abs_st_served st c : abs_st st = TServed c -> st = RServed c.
+Proof. destruct st as [|[|]| | | |]; cbn; congruence. Qed.
+Lemma abs_st_wait st : abs_st st = TWait -> st = RWait None.
+Proof. destruct st as [|[|]| | | |]; cbn; congruence. Qed.
+
+Lemma run_Inv : forall ops s, Inv s -> Inv (snd (run s ops)).
+Proof.
+  induction ops as [|o ops IH]; intros s HI; [exact HI|].
+  change (run s (o :: ops)) with (let s' := step s o in let '(l, s'') := run s' ops in (observe s' :: l, s'')). cbn zeta.
+  specialize (IH (step s o) (step_Inv s o HI)). destruct (run (step s o) ops) as [l s'']. exact IH.
+Qed.
+Theorem final_Inv cn ops : Inv (final cn ops).
+Proof. apply run_Inv, Inv_init. Qed.
+
+(* ---- clause (a) *)
+Lemma first_wait_from_complete l : forall i r, i <= r -> option_map q_st (nth_error l (r - i)) = Some TWait ->
+  (forall r', i <= r' -> r' < r -> option_map q_st (nth_error l (r' - i)) <> Some TWait) -> first_wait_from i l = Some r.
+Proof.
+  induction l as [|q l IH]; intros i r Hle Hr Hlt; cbn.
+  - destruct (r - i); discriminate.
+  - destruct (Nat.eq_dec r i) as [->|Hne].
+    + rewrite Nat.sub_diag in Hr. cbn in Hr. injection Hr as ->. reflexivity.
+    + assert (Hi : q_st q <> TWait).
+      { intros E. apply (Hlt i); [lia|lia|]. rewrite Nat.sub_diag. cbn. now rewrite E. }
+      assert (Hrec : first_wait_from (S i) l = Some r).
+      { apply IH; [lia| |].
+        - replace (r - i) with (S (r - S i)) in Hr by lia. exact Hr.
+        - intros r' H1 H2. specialize (Hlt r'). replace (r' - i) with (S (r' - S i)) in Hlt by lia. apply Hlt; lia. }
+      destruct (q_st q); auto. congruence.
+Qed.
+
+(* (a), the offer: the connection of a finished request goes to the request that has waited longest, whatever its
+   own dial is doing (the hypotheses do not mention the dial of r at all) *)
+Theorem release_offers_longest_waiting s c r0 r :
+  Inv s -> holder s c = Some r0 ->
+  mst s r = Some (RWait None) -> (forall r', r' < r -> mst s r' <> Some (RWait None)) ->
+  mst (step s (Release c)) r = Some (RWait (Some c)).
+Proof.
+  intros HI Hh Hr Hlt. pose proof (sim_step s (Release c) HI) as H. cbn [tstep] in H.
+  destruct (evs_eqb (evs (step s (Release c))) []); [|discriminate].
+  change (t_holder_from 0 (t_reqs (abs s)) c) with (t_holder_from 0 (map abs_req (reqs s)) c) in H. rewrite holder_abs in H.
+  change (holder_from 0 (reqs s) c) with (holder s c) in H. rewrite Hh in H. injection H as H.
+  destruct (holder_spec _ _ _ Hh) as (q0 & Hq0 & Est0).
+  assert (Hne : r0 <> r). { intros ->. unfold mst in Hr. rewrite Hq0 in Hr. cbn in Hr. congruence. }
+  set (T := t_upd r0 (q_set_st TOver) (abs s)) in *.
+  assert (HT : forall r', qst T r' = if Nat.eqb r0 r' then Some TOver else qst (abs s) r').
+  { intros r'. destruct (Nat.eqb_spec r0 r') as [<-|Hn]; [|now apply qst_t_upd_ne].
+    unfold T. rewrite qst_t_upd_eq, abs_nth, Hq0. reflexivity. }
+  assert (Hfw : first_wait T = Some r).
+  { apply first_wait_from_complete; [lia| |].
+    - rewrite Nat.sub_0_r. fold (qst T r). rewrite HT. destruct (Nat.eqb_spec r0 r); [contradiction|]. rewrite qst_abs, Hr. reflexivity.
+    - intros r' _ Hr'. rewrite Nat.sub_0_r. fold (qst T r'). rewrite HT. destruct (Nat.eqb_spec r0 r'); [discriminate|].
+      rewrite qst_abs. specialize (Hlt r' Hr'). destruct (mst s r') as [st|]; [|discriminate]. cbn. intros [= E]. apply abs_st_wait in E. congruence. }
+  assert (Hq : qst (abs (step s (Release c))) r = Some (TProm c)).
+  { rewrite <- H. destruct (offer_qst c T r) as [E|(_ & _ & E)]; [|exact E].
+    exfalso. unfold offer in E. rewrite Hfw in E. rewrite qst_t_upd_eq in E. fold (qst T r) in E.
+    assert (E0 : qst T r = Some TWait). { rewrite HT. destruct (Nat.eqb_spec r0 r); [contradiction|]. rewrite qst_abs, Hr. reflexivity. }
+    unfold qst in E0, E. destruct (nth_error (t_reqs T) r); cbn in *; congruence. }
+  rewrite qst_abs in Hq. destruct (mst (step s (Release c)) r) as [st|]; [|discriminate]. cbn in Hq. injection Hq as Hq.
+  now rewrite (abs_st_prom _ _ Hq).
+Qed.
+
+(* (a), the promise: a connection sitting in a request's channel stays there whatever else happens ... *)
+Theorem offer_kept s o r c :
+  Inv s -> mst s r = Some (RWait (Some c)) -> o <> Poll r -> o <> Cancel r -> mst (step s o) r = Some (RWait (Some c)).
+Proof.
+  intros HI Hr H1 H2. pose proof (tstep_req _ _ _ _ _ (sim_step s o HI) r) as RS.
+  assert (Hq : qst (abs s) r = Some (TProm c)) by (rewrite qst_abs, Hr; reflexivity).
+  assert (Hq' : qst (abs (step s o)) r = Some (TProm c)).
+  { destruct RS as [[E|(E & _)] _ _|_ E _ _|c' E _ _ _ _|_ _ [(E & _)|[(E & _)|(c' & E & E')]]]; try congruence. }
+  rewrite qst_abs in Hq'. destruct (mst (step s o) r) as [st|]; [|discriminate]. cbn in Hq'. injection Hq' as Hq'.
+  now rewrite (abs_st_prom _ _ Hq').
+Qed.
+
+(* ... and serves the request at its next poll *)
+Theorem offer_taken_at_poll s r c :
+  Inv s -> mst s r = Some (RWait (Some c)) ->
+  In (EHand r c) (evs (step s (Poll r))) /\ mst (step s (Poll r)) r = Some (RServed c).
+Proof.
+  intros HI Hr. pose proof (tstep_req _ _ _ _ _ (sim_step s (Poll r) HI) r) as RS.
+  assert (Hq : qst (abs s) r = Some (TProm c)) by (rewrite qst_abs, Hr; reflexivity).
+  destruct RS as [_ _ [E|[E|E]]|E _ _ _|c' _ _ Hin Hq' [E|[E|E]]|_ _ [(E & _)|[(_ & E)|(c' & E & _)]]]; try congruence; try discriminate.
+  - exfalso. apply E. rewrite Hq. exact I.
+  - assert (c' = c) by congruence. subst c'. split; [exact Hin|].
+    rewrite qst_abs in Hq'. destruct (mst (step s (Poll r)) r) as [st|]; [|discriminate]. cbn in Hq'. injection Hq' as Hq'.
+    now rewrite (abs_st_served _ _ Hq').
+Qed.
+
+Theorem offered_connection_serves_at_next_poll : forall ops s r c,
+  Inv s -> mst s r = Some (RWait (Some c)) -> (forall o, In o ops -> o <> Poll r /\ o <> Cancel r) ->
+  let s1 := snd (run s ops) in
+  In (EHand r c) (evs (step s1 (Poll r))) /\ mst (step s1 (Poll r)) r = Some (RServed c).
+Proof.
+  induction ops as [|o ops IH]; intros s r c HI Hr Hops; cbn zeta.
+  - now apply offer_taken_at_poll.
+  - change (run s (o :: ops)) with (let s' := step s o in let '(l, s'') := run s' ops in (observe s' :: l, s'')). cbn zeta.
+    destruct (Hops o (or_introl eq_refl)) as (H1 & H2).
+    specialize (IH (step s o) r c (step_Inv s o HI) (offer_kept s o r c HI Hr H1 H2) (fun o' Ho' => Hops o' (or_intror Ho'))).
+    cbn zeta in IH. destruct (run (step s o) ops) as [l s'']. exact IH.
+Qed.
+
+(* ---- clause (c) *)
+(* every connection ever made is, at every operation boundary, in exactly one place: a checkout, one waiter's
+   channel, one request's hands, or the idle list (nothing is lost, nothing is duplicated) *)
+Theorem connections_conserved cn ops : let s := final cn ops in
+  Permutation (flat_map rloc (reqs s) ++ idle s) (seq 0 (nconn s)).
+Proof.
+  cbn zeta. destruct (final_Inv cn ops) as ((_ & _ & HC & _) & Eb). unfold Conserve, locs in HC. rewrite Eb in HC.
+  cbn in HC. now rewrite app_nil_r in HC.
+Qed.
+
+Theorem no_connection_serves_two s r1 r2 c :
+  Inv s -> mst s r1 = Some (RServed c) -> mst s r2 = Some (RServed c) -> r1 = r2.
+Proof.
+  intros ((_ & _ & HC & _) & _) H1 H2. unfold mst in *.
+  destruct (nth_error (reqs s) r1) as [q1|] eqn:E1; [|discriminate]. destruct (nth_error (reqs s) r2) as [q2|] eqn:E2; [|discriminate].
+  cbn in H1, H2. injection H1 as H1. injection H2 as H2.
+  destruct (NoDup_locs _ HC) as (Hnd & _). unfold locs in Hnd. apply nodup_app in Hnd as (Hnd & _ & _).
+  eapply (flat_nodup _ Hnd r1 r2 q1 q2 c); eauto; unfold rloc; [rewrite H1|rewrite H2]; now left.
+Qed.
+
+Definition closed_st (o : option treq) : bool := match o with Some (TServed _) | Some TOver => true | _ => false end.
+Lemma hands_app r a b : hands r (a ++ b) = hands r a + hands r b.
+Proof. unfold hands. now rewrite filter_app, app_length. Qed.
+
+Lemma mon_from_hands : forall ops obs cn t r, mon_from cn t ops obs = true ->
+  hands r (flat_map o_evs obs) + (if closed_st (qst t r) then 1 else 0) <= 1.
+Proof.
+  induction ops as [|o ops IH]; intros [|b obs] cn t r H; cbn [mon_from] in H; try discriminate.
+  - cbn. destruct (closed_st (qst t r)); lia.
+  - destruct (tstep cn o (o_evs b) t) as [t'|] eqn:E; [|discriminate]. apply andb_true_iff in H as (_ & H).
+    specialize (IH obs cn t' r H). cbn [flat_map]. rewrite hands_app.
+    destruct (tstep_req _ _ _ _ _ E r) as [[E1|(E1 & c & E1')] Hh _|_ E1 E1' Hh|c _ Hh _ E1 E1'|Hh E1 E1'].
+    + rewrite Hh. now rewrite E1 in IH.
+    + rewrite Hh, E1. rewrite E1' in IH. cbn in *. lia.
+    + rewrite Hh, E1. cbn. destruct (closed_st (qst t' r)); lia.
+    + rewrite Hh. rewrite E1 in IH. cbn in IH. destruct E1' as [E0|[E0|E0]]; rewrite E0; cbn; lia.
+    + rewrite Hh. rewrite E1 in IH. cbn in IH. destruct (closed_st (qst t r)); lia.
+Qed.
+
+(* (c) on every trace the monitor accepts - the implementation's included: no request is handed a connection twice *)
+Theorem accepted_trace_serves_once cn ops obs r :
+  mon_ckphase cn ops obs = true -> hands r (flat_map o_evs obs) <= 1.
+Proof.
+  intros H. pose proof (mon_from_hands ops obs cn tinit r H) as E. unfold qst in E. cbn in E. destruct r; cbn in E; lia.
+Qed.
+Theorem model_serves_once cn ops r : hands r (flat_map o_evs (trace cn ops)) <= 1.
+Proof. apply (accepted_trace_serves_once cn ops). apply mon_ckphase_holds. Qed.
+
+(* ---- clause (b) *)
+Lemma some_inj {A} (a b : A) : Some a = Some b -> a = b.
+Proof. now intros [= ->]. Qed.
+
+Lemma offer_nconn c t : t_nconn (offer c t) = t_nconn t.
+Proof. unfold offer. destruct (first_wait t); reflexivity. Qed.
+Lemma offer_dial c t r : option_map q_dial (nth_error (t_reqs (offer c t)) r) = option_map q_dial (nth_error (t_reqs t) r).
+Proof. exact (offers_dial [c] r t). Qed.
+
+(* the checkout of r goes away before its own dial finished: what the monitor's book says about that step *)
+Lemma sim_abandon s r q got o :
+  Inv s -> nth_error (reqs s) r = Some q -> r_st q = RWait got -> (o = Cancel r \/ (o = Poll r /\ got <> None)) ->
+  exists rest t1 q1,
+    abandon_check (cont s) r rest t1 = Some (abs (step s o)) /\
+    (forall e, In e rest -> In e (evs (step s o))) /\
+    (forall e, In e (evs (step s o)) -> In e rest \/ exists c, e = EHand r c) /\
+    nth_error (t_reqs t1) r = Some q1 /\ q_dial q1 = abs_dial (r_dial q) /\ abandoned q1 = true /\ t_nconn t1 = nconn s.
+Proof.
+  intros HI Hq Est Ho. pose proof (sim_step s o HI) as H.
+  assert (Hn : nth_error (t_reqs (abs s)) r = Some (abs_req q)) by (rewrite abs_nth, Hq; reflexivity).
+  assert (Hupd : forall st', nth_error (t_reqs (t_upd r (q_set_st st') (abs s))) r = Some (mkTR st' (abs_dial (r_dial q)))).
+  { intros st'. unfold t_upd. cbn [t_reqs t_set_reqs]. change (t_reqs (abs s)) with (map abs_req (reqs s)).
+    rewrite nth_error_upd_eq. change (map abs_req (reqs s)) with (t_reqs (abs s)). rewrite Hn. reflexivity. }
+  destruct Ho as [->|(-> & Hgot)]; cbn [tstep] in H; rewrite Hn in H; cbn [abs_req q_st] in H; rewrite Est in H.
+  - destruct got as [c|]; cbn [abs_st] in H.
+    + set (T := t_upd r (q_set_st TOver) (abs s)) in *.
+      pose proof (offer_dial c T r) as Hd. unfold T in Hd at 2. rewrite Hupd in Hd. cbn in Hd.
+      destruct (offer_qst c T r) as [Eq|(_ & Eq & _)].
+      2:{ unfold qst, T in Eq. rewrite Hupd in Eq. discriminate. }
+      unfold qst in Eq. unfold T in Eq at 2. rewrite Hupd in Eq. cbn in Eq.
+      destruct (nth_error (t_reqs (offer c T)) r) as [q1|] eqn:E1; [|discriminate].
+      exists (evs (step s (Cancel r))), (offer c T), q1.
+      repeat split; auto. now injection Hd. unfold abandoned. cbn in Eq. injection Eq as ->. reflexivity. now rewrite offer_nconn.
+    + exists (evs (step s (Cancel r))), (t_upd r (q_set_st TOver) (abs s)), (mkTR TOver (abs_dial (r_dial q))). repeat split; auto.
+  - destruct got as [c|]; [|now destruct Hgot]. cbn [abs_st] in H.
+    destruct (evs (step s (Poll r))) as [|e rest] eqn:Ee; [discriminate|].
+    destruct (ev_eqb e (EHand r c) && negb (held (abs s) c))%bool eqn:E; [|discriminate].
+    apply andb_true_iff in E as (E & _). apply ev_eqb_eq in E as ->.
+    exists rest, (t_upd r (q_set_st (TServed c)) (abs s)), (mkTR (TServed c) (abs_dial (r_dial q))). repeat split; auto.
+    + intros e He. now right.
+    + intros e [<-|He]; eauto.
+Qed.
+
+(* (b), continue_after_preemption = true: the pre-empted / cancelled attempt is not dropped; if the environment had
+   already resolved it, its connection exists within this very step; if nothing is decided yet it runs on in
+   the background *)
+Theorem abandoned_dial_continues s r q got o :
+  Inv s -> cont s = true -> nth_error (reqs s) r = Some q -> r_st q = RWait got -> started (r_dial q) = true ->
+  (o = Cancel r \/ (o = Poll r /\ got <> None)) ->
+  ~ In (EDrop r) (evs (step s o)) /\
+  match d_t (r_dial q), d_h (r_dial q) with
+  | Some true, Some true => In (ENew (nconn s) r) (evs (step s o))
+  | Some false, _ | Some true, Some false => True
+  | _, _ => exists q', nth_error (reqs (step s o)) r = Some q' /\ d_bg (r_dial q') = true /\ d_ph (r_dial q') <> DGone
+  end.
+Proof.
+  intros HI Hc Hq Est Hst Ho. destruct (sim_abandon s r q got o HI Hq Est Ho) as (rest & t1 & q1 & H & Hin1 & Hin2 & Hq1 & Hd1 & Hab1 & Hn1).
+  unfold abandon_check in H. rewrite Hq1, Hd1, Hc in H.
+  assert (Hk : (k_st (abs_dial (r_dial q)) && negb (k_dead (abs_dial (r_dial q))))%bool = true).
+  { unfold abs_dial, started in *. cbn. destruct (d_ph (r_dial q)); auto; discriminate. }
+  rewrite Hk in H. unfold bg_check in H. rewrite Hq1, Hd1 in H. cbn [abs_dial k_t k_h] in H.
+  assert (Hnodrop : forall l, rest = l -> ~ In (EDrop r) l -> ~ In (EDrop r) (evs (step s o))).
+  { intros l -> Hl Hd. destruct (Hin2 _ Hd) as [Hd'|(c & Hd')]; [auto|discriminate]. }
+  pose proof (step_Inv s o HI) as ((_ & HD' & _ & _) & _).
+  assert (Halive : t1 = abs (step s o) -> exists q', nth_error (reqs (step s o)) r = Some q' /\ d_bg (r_dial q') = true /\ d_ph (r_dial q') <> DGone).
+  { intros ->. rewrite abs_nth in Hq1. destruct (nth_error (reqs (step s o)) r) as [q'|] eqn:Hq'; [|discriminate].
+    injection Hq1 as <-. exists q'. split; auto.
+    assert (Hne : d_ph (r_dial q') <> DGone).
+    { cbn in Hd1. unfold abs_dial in Hd1. injection Hd1 as _ Hdead _ _. unfold started in Hst.
+      destruct (d_ph (r_dial q')), (d_ph (r_dial q)); congruence. }
+    split; auto. destruct (DW_nth _ _ _ HD' Hq') as (_ & Hown). unfold downer in Hown. unfold abandoned, abs_req in Hab1. cbn in Hab1.
+    destruct (r_st q') as [|[|]| | | |]; try discriminate; (destruct Hown as [|(? & _)]; [contradiction|assumption]). }
+  destruct (d_t (r_dial q)) as [[|]|]; [destruct (d_h (r_dial q)) as [[|]|]| |];
+    (destruct (evs_eqb rest _) eqn:E; [|discriminate]); apply evs_eqb_eq in E; apply some_inj in H.
+  - split; [apply (Hnodrop _ E); intros [|[]]; discriminate|]. apply Hin1. rewrite E, Hn1. now left.
+  - split; [apply (Hnodrop _ E); intros []|exact I].
+  - split; [apply (Hnodrop _ E); intros []|auto].
+  - split; [apply (Hnodrop _ E); intros []|exact I].
+  - split; [apply (Hnodrop _ E); intros []|auto].
+Qed.
+
+(* (b), continue_after_preemption = false: the attempt is dropped there and then *)
+Theorem abandoned_dial_dropped s r q got o :
+  Inv s -> cont s = false -> nth_error (reqs s) r = Some q -> r_st q = RWait got ->
+  (o = Cancel r \/ (o = Poll r /\ got <> None)) ->
+  (started (r_dial q) = true -> In (EDrop r) (evs (step s o))) /\
+  (forall c, ~ In (ENew c r) (evs (step s o))) /\
+  d_ph (get_dial (step s o) r) = DGone.
+Proof.
+  intros HI Hc Hq Est Ho. destruct (sim_abandon s r q got o HI Hq Est Ho) as (rest & t1 & q1 & H & Hin1 & Hin2 & Hq1 & Hd1 & Hab1 & Hn1).
+  unfold abandon_check in H. rewrite Hq1, Hd1, Hc in H.
+  assert (Hgone : forall l, rest = l -> (forall c, ~ In (ENew c r) l) -> t_upd r (q_upd_dial kill) t1 = abs (step s o) ->
+            (forall c, ~ In (ENew c r) (evs (step s o))) /\ d_ph (get_dial (step s o) r) = DGone).
+  { intros l -> Hl Ht. split.
+    - intros c Hc'. destruct (Hin2 _ Hc') as [Hd'|(c' & Hd')]; [now apply (Hl c)|discriminate].
+    - assert (Hd : option_map (fun x => k_dead (q_dial x)) (nth_error (t_reqs (abs (step s o))) r) = Some true).
+      { rewrite <- Ht. unfold t_upd. cbn [t_reqs t_set_reqs]. rewrite nth_error_upd_eq, Hq1. reflexivity. }
+      rewrite abs_nth in Hd. unfold get_dial. destruct (nth_error (reqs (step s o)) r) as [q'|]; [|discriminate].
+      cbn in Hd. destruct (d_ph (r_dial q')); try discriminate. reflexivity. }
+  destruct (k_st (abs_dial (r_dial q)) && negb (k_dead (abs_dial (r_dial q))))%bool eqn:Hk.
+  - destruct (evs_eqb rest [EDrop r]) eqn:E; [|discriminate]. apply evs_eqb_eq in E. apply some_inj in H.
+    destruct (Hgone _ E) as (A & B); auto. { intros c [|[]]; discriminate. }
+    split; [|split]; auto. intros _. apply Hin1. rewrite E. now left.
+  - destruct (evs_eqb rest []) eqn:E; [|discriminate]. apply evs_eqb_eq in E. apply some_inj in H.
+    destruct (Hgone _ E) as (A & B); auto.
+    split; [|split]; auto. intros Hst. exfalso. unfold abs_dial, started in *. cbn in Hk. destruct (d_ph (r_dial q)); discriminate.
+Qed.
+
+(* a delayed checkout between two operations has seen everything the environment did to its dial *)
+Lemma bg_parked s r q : Inv s -> nth_error (reqs s) r = Some q -> d_bg (r_dial q) = true -> d_ph (r_dial q) <> DGone ->
+  is_wait q = false /\ started (r_dial q) = true /\
+  ((d_ph (r_dial q) = DTrans /\ d_t (r_dial q) = None /\ d_h (r_dial q) = None) \/
+   (d_ph (r_dial q) = DHand /\ d_t (r_dial q) = Some true /\ d_h (r_dial q) = None)).
+Proof.
+  intros ((_ & HD & _ & HP) & Eb) Hq Hbg Hne. destruct (DW_nth _ _ _ HD Hq) as (Hsh & Hown). unfold downer in Hown.
+  assert (Hnw : is_wait q = false).
+  { unfold is_wait. destruct (r_st q); auto. destruct Hown; congruence. }
+  assert (Hst : started (r_dial q) = true).
+  { destruct (r_st q) as [c|got|c| | |].
+    - contradiction.
+    - destruct Hown; congruence.
+    - destruct Hown as [|(_ & _ & ?)]; auto; contradiction.
+    - destruct Hown as [|(_ & _ & ?)]; auto; contradiction.
+    - destruct Hown as [|(_ & _ & ?)]; auto; contradiction.
+    - destruct Hown as [|(_ & _ & ?)]; auto; contradiction. }
+  split; auto. split; auto.
+  destruct (HP r q Hq Hnw) as [Hp|Hin]; [|rewrite Eb in Hin; destruct Hin].
+  unfold parked, dial_poll, dshape, started in *. destruct (r_dial q) as [ph t h bg]. cbn in *.
+  destruct ph; try discriminate; destruct t as [[|]|], h as [[|]|]; cbn in *; try discriminate; auto;
+    try (destruct Hsh; discriminate).
+Qed.
+
+(* (b), the attempt that runs on: the transport resolves - it stays alive ... *)
+Theorem background_dial_survives_transport s r q :
+  Inv s -> nth_error (reqs s) r = Some q -> d_bg (r_dial q) = true -> d_ph (r_dial q) <> DGone -> d_t (r_dial q) = None ->
+  exists q', nth_error (reqs (step s (TDone r true))) r = Some q' /\
+             d_bg (r_dial q') = true /\ d_ph (r_dial q') <> DGone /\ d_t (r_dial q') = Some true.
+Proof.
+  intros HI Hq Hbg Hne Ht. destruct (bg_parked s r q HI Hq Hbg Hne) as (Hnw & Hst & [(Eph & _ & Eh)|(_ & Et & _)]); [|congruence].
+  pose proof (sim_step s (TDone r true) HI) as H. cbn [tstep] in H. rewrite abs_nth, Hq in H. cbn [option_map abs_req q_dial abs_dial k_st k_dead k_t] in H.
+  rewrite Eph, Ht in H. cbn [andb negb] in H.
+  assert (Hab : forall d, abandoned (mkTR (abs_st (r_st q)) d) = true).
+  { intros d. destruct HI as ((_ & HD & _ & _) & _). destruct (DW_nth _ _ _ HD Hq) as (_ & Hown). unfold downer, is_wait in *.
+    destruct (r_st q) as [|[|]| | | |]; try discriminate; try reflexivity. congruence. }
+  change (abandoned (abs_req q)) with (abandoned (mkTR (abs_st (r_st q)) (abs_dial (r_dial q)))) in H. rewrite Hab in H. unfold bg_check in H.
+  set (T := t_upd r _ (abs s)) in H.
+  assert (HT : nth_error (t_reqs T) r = Some (mkTR (abs_st (r_st q)) (mkTD true false (Some true) None))).
+  { unfold T, t_upd. cbn [t_reqs t_set_reqs]. change (t_reqs (abs s)) with (map abs_req (reqs s)).
+    rewrite nth_error_upd_eq, nth_error_map, Hq. unfold abs_req, abs_dial, q_upd_dial. cbn. rewrite ?Eph, ?Eh. reflexivity. }
+  rewrite HT in H. cbn [q_dial k_t k_h] in H. destruct (evs_eqb _ []); [|discriminate]. apply some_inj in H.
+  rewrite H, abs_nth in HT. destruct (nth_error (reqs (step s (TDone r true))) r) as [q'|] eqn:Hq'; [|discriminate].
+  exists q'. split; auto. cbn [option_map] in HT. unfold abs_req, abs_dial in HT. injection HT as Hs _ Hdead Ht' _.
+  assert (Hne' : d_ph (r_dial q') <> DGone) by (destruct (d_ph (r_dial q')); congruence).
+  pose proof (step_Inv s (TDone r true) HI) as ((_ & HD' & _ & _) & _).
+  destruct (DW_nth _ _ _ HD' Hq') as (_ & Hown). unfold downer in Hown.
+  assert (Hnw' : is_wait q' = false).
+  { unfold is_wait in *. destruct (r_st q') as [|[|]| | | |], (r_st q) as [|[|]| | | |]; cbn in Hs; congruence. }
+  repeat split; auto. unfold is_wait in Hnw'.
+  destruct (r_st q'); try discriminate; try contradiction; destruct Hown as [|(? & _)]; auto; contradiction.
+Qed.
+
+(* ... and when the handshake resolves its connection exists and is available in the pool: offered to the
+   longest-waiting request, or idle *)
+Theorem background_dial_completes_into_pool s r q :
+  Inv s -> nth_error (reqs s) r = Some q -> d_bg (r_dial q) = true -> d_ph (r_dial q) <> DGone -> d_t (r_dial q) = Some true ->
+  let s' := step s (HDone r true) in
+  evs s' = [ENew (nconn s) r] /\ nconn s' = S (nconn s) /\
+  (In (nconn s) (idle s') \/ exists r', mst s' r' = Some (RWait (Some (nconn s)))).
+Proof.
+  intros HI Hq Hbg Hne Ht. cbn zeta. destruct (bg_parked s r q HI Hq Hbg Hne) as (Hnw & Hst & [(_ & Et & _)|(Eph & _ & Eh)]); [congruence|].
+  pose proof (sim_step s (HDone r true) HI) as H. cbn [tstep] in H. rewrite abs_nth, Hq in H. cbn [option_map abs_req q_dial abs_dial k_st k_dead k_t k_h] in H.
+  rewrite Eph, Ht, Eh in H. cbn [andb negb] in H.
+  assert (Hab : forall d, abandoned (mkTR (abs_st (r_st q)) d) = true).
+  { intros d. destruct HI as ((_ & HD & _ & _) & _). destruct (DW_nth _ _ _ HD Hq) as (_ & Hown). unfold downer, is_wait in *.
+    destruct (r_st q) as [|[|]| | | |]; try discriminate; try reflexivity. congruence. }
+  change (abandoned (abs_req q)) with (abandoned (mkTR (abs_st (r_st q)) (abs_dial (r_dial q)))) in H. rewrite Hab in H. unfold bg_check in H.
+  set (T := t_upd r _ (abs s)) in H.
+  assert (HT : nth_error (t_reqs T) r = Some (mkTR (abs_st (r_st q)) (mkTD true false (Some true) (Some true)))).
+  { unfold T, t_upd. cbn [t_reqs t_set_reqs]. change (t_reqs (abs s)) with (map abs_req (reqs s)).
+    rewrite nth_error_upd_eq, nth_error_map, Hq. unfold abs_req, abs_dial, q_upd_dial. cbn. rewrite ?Eph, ?Ht. reflexivity. }
+  rewrite HT in H. cbn [q_dial k_t k_h] in H. change (t_nconn T) with (nconn s) in H.
+  destruct (evs_eqb _ [ENew (nconn s) r]) eqn:E; [|discriminate]. apply evs_eqb_eq in E. apply some_inj in H.
+  split; [exact E|]. set (T2 := mkT _ _ _ _) in H.
+  split. { change (nconn (step s (HDone r true))) with (t_nconn (abs (step s (HDone r true)))). rewrite <- H, offer_nconn. reflexivity. }
+  unfold offer in H. destruct (first_wait T2) as [w|] eqn:Ew.
+  - right. exists w. assert (Hq' : qst (abs (step s (HDone r true))) w = Some (TProm (nconn s))).
+    { rewrite <- H, qst_t_upd_eq. destruct (first_wait_from_spec _ _ _ Ew) as (_ & B & _). rewrite Nat.sub_0_r in B.
+      destruct (nth_error (t_reqs T2) w); [reflexivity|discriminate]. }
+    rewrite qst_abs in Hq'. destruct (mst (step s (HDone r true)) w) as [st|]; [|discriminate]. cbn in Hq'. injection Hq' as Hq'.
+    now rewrite (abs_st_prom _ _ Hq').
+  - left. change (idle (step s (HDone r true))) with (t_idle (abs (step s (HDone r true)))). rewrite <- H. cbn. rewrite in_app_iff. right. now left.
+Qed.
+
+(* (b), continue_after_preemption = false (or any finished attempt): the environment cannot reach a dial that is gone *)
+Theorem gone_dial_ignores_environment s r ok :
+  Inv s -> d_ph (get_dial s r) = DGone -> step s (TDone r ok) = set_evs [] s /\ step s (HDone r ok) = set_evs [] s.
+Proof.
+  intros (_ & Eb) Hg. rewrite !step_eq. cbn [do_op]. unfold do_tdone, do_hdone.
+  change (get_dial (set_evs [] s) r) with (get_dial s r). rewrite Hg. split; apply settle_nil; exact Eb.
+Qed.
+
+(* ================================================================ the same, for every state the model can reach *)
+Theorem c_release_offers cn ops0 c r0 r : let s := final cn ops0 in
+  holder s c = Some r0 -> mst s r = Some (RWait None) -> (forall r', r' < r -> mst s r' <> Some (RWait None)) ->
+  mst (step s (Release c)) r = Some (RWait (Some c)).
+Proof. cbn zeta. apply release_offers_longest_waiting, final_Inv. Qed.
+
+Theorem c_offer_served_next_poll cn ops0 ops r c : let s := final cn ops0 in
+  mst s r = Some (RWait (Some c)) -> (forall o, In o ops -> o <> Poll r /\ o <> Cancel r) ->
+  let s1 := snd (run s ops) in
+  In (EHand r c) (evs (step s1 (Poll r))) /\ mst (step s1 (Poll r)) r = Some (RServed c).
+Proof. cbn zeta. intros H1 H2. apply offered_connection_serves_at_next_poll; auto. apply final_Inv. Qed.
+
+Theorem c_dial_continues cn ops0 r q got o : let s := final cn ops0 in
+  cont s = true -> nth_error (reqs s) r = Some q -> r_st q = RWait got -> started (r_dial q) = true ->
+  (o = Cancel r \/ (o = Poll r /\ got <> None)) ->
+  ~ In (EDrop r) (evs (step s o)) /\
+  match d_t (r_dial q), d_h (r_dial q) with
+  | Some true, Some true => In (ENew (nconn s) r) (evs (step s o))
+  | Some false, _ | Some true, Some false => True
+  | _, _ => exists q', nth_error (reqs (step s o)) r = Some q' /\ d_bg (r_dial q') = true /\ d_ph (r_dial q') <> DGone
+  end.
+Proof. cbn zeta. apply abandoned_dial_continues, final_Inv. Qed.
+
+Theorem c_dial_survives_transport cn ops0 r q : let s := final cn ops0 in
+  nth_error (reqs s) r = Some q -> d_bg (r_dial q) = true -> d_ph (r_dial q) <> DGone -> d_t (r_dial q) = None ->
+  exists q', nth_error (reqs (step s (TDone r true))) r = Some q' /\
+             d_bg (r_dial q') = true /\ d_ph (r_dial q') <> DGone /\ d_t (r_dial q') = Some true.
+Proof. cbn zeta. apply background_dial_survives_transport, final_Inv. Qed.
+
+Theorem c_dial_completes_into_pool cn ops0 r q : let s := final cn ops0 in
+  nth_error (reqs s) r = Some q -> d_bg (r_dial q) = true -> d_ph (r_dial q) <> DGone -> d_t (r_dial q) = Some true ->
+  let s' := step s (HDone r true) in
+  evs s' = [ENew (nconn s) r] /\ nconn s' = S (nconn s) /\
+  (In (nconn s) (idle s') \/ exists r', mst s' r' = Some (RWait (Some (nconn s)))).
+Proof. cbn zeta. apply background_dial_completes_into_pool, final_Inv. Qed.
+
+Theorem c_dial_dropped cn ops0 r q got o : let s := final cn ops0 in
+  cont s = false -> nth_error (reqs s) r = Some q -> r_st q = RWait got ->
+  (o = Cancel r \/ (o = Poll r /\ got <> None)) ->
+  (started (r_dial q) = true -> In (EDrop r) (evs (step s o))) /\
+  (forall c, ~ In (ENew c r) (evs (step s o))) /\
+  d_ph (get_dial (step s o) r) = DGone.
+Proof. cbn zeta. apply abandoned_dial_dropped, final_Inv. Qed.
+
+Theorem c_gone_dial_ignores_environment cn ops0 r ok : let s := final cn ops0 in
+  d_ph (get_dial s r) = DGone -> step s (TDone r ok) = set_evs [] s /\ step s (HDone r ok) = set_evs [] s.
+Proof. cbn zeta. apply gone_dial_ignores_environment, final_Inv. Qed.
+
+Theorem c_no_connection_serves_two cn ops0 r1 r2 c : let s := final cn ops0 in
+  mst s r1 = Some (RServed c) -> mst s r2 = Some (RServed c) -> r1 = r2.
+Proof. cbn zeta. apply no_connection_serves_two, final_Inv. Qed.
+
+(* the seeded regression's scenario: request 0 holds connection 0; request 1 has been polled AFTER its transport
+   connected (handshake pending); connection 0 is released; at its next poll request 1 takes it, and without
+   continue_after_preemption its own dial is dropped *)
+Example handshake_phase_example :
+  let ops := [Issue; Poll 0; TDone 0 true; HDone 0 true; Poll 0; Issue; Poll 1; TDone 1 true; Poll 1; Release 0; Poll 1] in
+  map o_evs (skipn 8 (trace false ops)) = [[EPend 1]; []; [EHand 1 0; EDrop 1]] /\
+  map o_evs (skipn 8 (trace true (ops ++ [HDone 1 true]))) = [[EPend 1]; []; [EHand 1 0]; [ENew 1 1]] /\
+  o_idle (last (trace true (ops ++ [HDone 1 true])) (observe (init true))) = [1].
+Proof. vm_compute. repeat split. Qed.
